@@ -92,6 +92,11 @@ RULES = [
  ('double quote in a sheet name', 'C02', 'reference-call/*/name-with-" (TokenError: the emitted python text literal ended at the quote)'),
  ('functions without meta data resolve', 'C14', '*/range-named-by-offset + */range-named-by-indirect (SUM(OFFSET(...)) = 0); C02 reference-call/reference-call-as-argument/*'),
  ('operator resolves a reference operand', 'C02', 'reference-call/reference-call-as-operand/* (OFFSET(...)+1 = #VALUE!)'),
+ ('OFFSET with a height or width of zero', 'C01', 'real-workbook/stale-value (lookup.xlsx: after a write of 0 to the height of an array OFFSET the cell raised FormulaEvalError, a fresh model IndexError: the empty reference was fitted to the target); C03 real-workbook/save-or-load-raises (found by the thorough tier)'),
+ ("inside of a quoted sheet name is kept", 'C02', "reference-call/*/name-with-$ (='US$'!A1 looked for a sheet named US: every $ of the reference text was dropped)"),
+ ('not left work-in-progress when the build of the cell referred to fails', 'C09', 'retry-returns-a-value/iterative/*/under-reference-valued-cell/below-a-range (=INDIRECT("A1") over a cell not built yet whose range holds the failing cell: later evaluations returned None)'),
+ ('queued by a failed build and then overwritten', 'C01', 'stale-value + stale-value/xlsx-stored-result-of-cell-built-after-write (after a failed build, set_value over a formula cell the build had queued: the written value was wiped by the next evaluate)'),
+ ('sheet can be given to a sheet-less A:A', 'C05', "sheetless-unbounded-raises (evaluate('A:A') on the active sheet raised ValueError: the corner 'A' was parsed as a cell)"),
 ]
 
 
